@@ -1,7 +1,7 @@
 CONSTANTS
   Server = {1, 2, 3}
   Campaigners = {1, 2, 3}
-  MaxTerm = 4
+  MaxTerm = 3
   MaxProposals = 3
   MaxCrashes = 2
   MaxDrops = 2
@@ -11,7 +11,7 @@ CONSTANTS
   MaxNet = 8
   MaxEnts = 1
   LossySend = FALSE
-  SimDepth = 40
+  SimDepth = 45
   W_CommitAnyTerm = FALSE
   W_VoteIgnoreVoted = FALSE
   W_VoteIgnoreLog = FALSE
@@ -19,17 +19,18 @@ CONSTANTS
   W_AppendAlwaysTruncates = FALSE
   W_HeartbeatCommitUnbounded = FALSE
   W_QuorumMinusOne = FALSE
-  PreVote = TRUE
+  PreVote = FALSE
   W_PreVoteRespCountsAsVote = FALSE
-  ConfChange = FALSE
+  ConfChange = TRUE
   InitVoters = {1, 2, 3}
-  AddVoters = {}
-  RemoveVoters = {}
-  MaxConfChanges = 0
-  MaxConfRefusals = 0
+  AddVoters = {3}
+  RemoveVoters = {1, 2, 3}
+  MaxConfChanges = 2
+  MaxConfRefusals = 1
   W_ConfChangeNoPendingCheck = FALSE
   W_AddedVoterCaughtUp = FALSE
 INIT Init
 NEXT Next
 CONSTRAINT NetBound
+ACTION_CONSTRAINT CrashAfterConfChange
 INVARIANTS ElectionSafety LogMatching StateMachineSafety LeaderCompleteness CommitWithinLog PersistedMatchesVolatile MatchSound EmitSim
